@@ -16,7 +16,7 @@ RULE = (
     "case = (generated tree, optional rename file, initial sdkconfig: absent / written by the tool in a generated state / "
     "hand-edited with unknown, duplicate and deprecated entries; a sequence of <=24 UI-level actions - highlight, enter, "
     "toggle, typed values, y / n, choice member selection, reset of a row or of a whole menu, show-all, jump-to, load of "
-    "another file, save - replayed over MenuConfigState exactly the way esp_menuconfig/app.py drives it).  Oracle after "
+    "another file, save - executed by the real handlers of esp_menuconfig/app.py on a headless stub application).  Oracle after "
     "EVERY step: needs_save() == False implies that the file on disk is byte-for-byte what saving would write now - or, for a "
     "hand-edited file, that a fresh session started on it would save exactly those bytes - (for a file that does not exist: "
     "saving would write no option line), i.e. quitting loses nothing; immediately after a save, "
@@ -25,11 +25,11 @@ RULE = (
     "the file.  Distinct = SHA-1."
 )
 ASSUMPTIONS = [
-    "the driver vk/mcdriver.py reproduces the handlers of app.py (dialogs answered by the action's arguments); the Textual event loop itself is not in the loop",
+    "vk/mcdriver.py calls the real binding / message handlers of esp_menuconfig/app.py on a stub application (fake widgets around the real MenuOptionList.populate / current_node, dialogs answered at once by the action's arguments with the submit logic of the real screens); the Textual event loop, key dispatch and screen composition are not in the loop",
 ]
-BUDGET = {"quick": {"examples": 1600}, "thorough": {"examples": 100000, "deadline_s": 1500}}
+BUDGET = {"quick": {"examples": 4800}, "thorough": {"examples": 100000, "deadline_s": 1500}}
 
-CFG = gen.cfg(max_syms=12, p_menu=22, p_menuconfig=20, p_choice=14, p_warning=10, p_prompt=90)
+CFG = gen.cfg(max_syms=12, p_menu=22, p_menuconfig=20, p_choice=14, p_warning=10, p_prompt=90, p_keep_empty_menu=60)
 
 
 @st.composite
